@@ -73,11 +73,21 @@ package act
 //@   ensures [no_restart_while_shutting_down] old(s.mode) == 3 ==> result.do != supActionStartChild
 //@   ensures [shutdown_terminates_when_last_child_is_gone] old(s.mode) == 3 ==> (result.do == supActionTerminate <==> len(s.wait) == 0) && (result.do == supActionTerminate ==> result.reason == old(s.shutdownReason))
 //@   ensures [exceeded_reason_is_kept] reason != ErrSupervisorRestartsExceeded && result.do == supActionTerminateChildren && result.reason == ErrSupervisorRestartsExceeded ==> s.mode == 3 && s.shutdownReason == ErrSupervisorRestartsExceeded
+// C08 (simple one-for-one)
 //@ func (s *supSOFO) childTerminated
-//@   props C09
+//@   props C09 C08 C10
 //@   mode int
 //@   no_safety
 //@   requires [history_wf] restartsWF(s.restarts) && 0 <= int(s.restart.Period) && 0 <= int(s.restart.Intensity)
+//@   requires [wf] s.pids != nil && s.spec != nil && (s.shutdown ==> s.wait != nil) && s.wait != nil && (forall k gen.Atom :: has(s.spec, k) ==> s.spec[k] != nil)
+//@   ensures [temporary_never_restarts] old(s.restart.Strategy) == SupervisorStrategyTemporary ==> result.do != supActionStartChild
+//@   ensures [transient_restarts_only_after_abnormal_end] old(s.restart.Strategy) == SupervisorStrategyTransient && (reason == gen.TerminateReasonNormal || reason == gen.TerminateReasonShutdown) ==> result.do != supActionStartChild
+//@   ensures [no_restart_while_shutting_down] old(s.shutdown) ==> result.do != supActionStartChild
+//@   ensures [disabled_child_stays_down] result.do == supActionStartChild ==> !result.spec.disabled
+//@   ensures [restarts_the_terminated_spec] result.do == supActionStartChild ==> old(has(s.spec, name)) && result.spec.Name == s.spec[name].Name
+//@   ensures [terminated_pid_forgotten] !has(s.pids, pid)
+//@   ensures [shutdown_terminates_when_last_child_is_gone] old(s.shutdown) ==> (result.do == supActionTerminate <==> len(s.wait) == 0) && (result.do == supActionTerminate ==> result.reason == old(s.shutdownReason))
+//@   ensures [exceeded_reason_is_kept] reason != ErrSupervisorRestartsExceeded && result.do == supActionTerminateChildren && result.reason == ErrSupervisorRestartsExceeded ==> s.shutdown && s.shutdownReason == ErrSupervisorRestartsExceeded
 //@   at call supCheckRestartIntensity assert [configured_window] period == int(s.restart.Period) && intensity == int(s.restart.Intensity) && restarts == s.restarts
 
 // C09 defaults: an unset Intensity / Period becomes the documented default (5 / 5), each on its own;
@@ -197,3 +207,23 @@ package act
 //@   loop 2 invariant [mailbox2] mboxDistinct(p.mailbox) && p.pool != nil
 //@   at call Pop assert [strict_priority] (self == p.mailbox.System ==> emptyFlag(p.mailbox.Urgent)) && (self == p.mailbox.Main ==> emptyFlag(p.mailbox.Urgent) && emptyFlag(p.mailbox.System)) && (self == p.mailbox.Log ==> emptyFlag(p.mailbox.Urgent) && emptyFlag(p.mailbox.System) && emptyFlag(p.mailbox.Main))
 //@   at call forward assert [only_regular_traffic_is_forwarded] message.Type < gen.MailboxMessageTypeExit
+
+// C10 / C08: how the supervisor acts on the machines' decisions: children are spawned linked both
+// ways (so that the supervisor's end takes them down and their end is noticed), and a termination
+// round sends the exit with the decided reason to exactly the listed pids.
+//@ iface gen.Process.SpawnRegister
+//@ iface gen.Process.SendExit
+//@ iface gen.Process.Send
+//@ iface gen.Process.PID
+//@ iface gen.Log.Info
+//@ iface supBehavior.childStarted
+//@ func (s *Supervisor) handleAction
+//@   props C10 C08
+//@   mode int
+//@   no_safety
+//@   may_panic
+//@   at call Spawn assert [links_both_ways] options.LinkChild && options.LinkParent
+//@   at call SpawnRegister assert [links_both_ways_registered] options.LinkChild && options.LinkParent && register == action.spec.Name
+//@   at call SendExit assert [exit_with_decided_reason] reason == action.reason
+//@   at call SendExit assert [exit_to_listed_child] !(forall i int :: 0 <= i && i < len(action.terminate) ==> action.terminate[i] != to)
+//@   at call childStarted assert [started_child_is_reported] arg0.Name == action.spec.Name
